@@ -12,11 +12,11 @@
 """
 from __future__ import annotations
 
-from typing import List
+from typing import Dict, List
 
 import envcorr
 import rl
-from envcorr import EpisodeFailed, compare_trace, make_batch, run_batch
+from envcorr import EpisodeFailed, compare_trace, make_batch, pick_env, run_batch
 from leanio import parse_fields
 from rl import torch
 
@@ -39,8 +39,15 @@ def ask(ctx, lines: List[str], per_call: int = 100) -> List[str]:
     matrix + a 17-step mask trace per reply) that exceeds the pipe buffers in both directions and deadlocks.
     Ask in small portions instead."""
     out: List[str] = []
-    for k in range(0, len(lines), per_call):
-        out += ctx.driver.ask_many(lines[k: k + per_call])
+    chunk, size = [], 0
+    for ln in lines:  # at most `per_call` lines and ~32 kB per call (a single longer line goes alone)
+        if chunk and (len(chunk) >= per_call or size + len(ln) > 32_000):
+            out += ctx.driver.ask_many(chunk)
+            chunk, size = [], 0
+        chunk.append(ln)
+        size += len(ln) + 1
+    if chunk:
+        out += ctx.driver.ask_many(chunk)
     return out
 
 
@@ -52,13 +59,13 @@ def first_done(d: List[int]):
 # C01 (as envcorr.check_feasibility, plus boundary-event counters from `ad.boundary_events`)
 # ------------------------------------------------------------------------------------------------
 def check_feasibility(ctx, ad, episodes_quick: int = 150, episodes_thorough: int = 1500):
-    env = ad.make_env()
     total = ctx.budget(episodes_quick, episodes_thorough)
     done_eps = 0
     while done_eps < total:
+        env, var = pick_env(ctx, ad)
         n = ctx.rng.choice(ad.sizes(ctx.tier))
         B = ctx.rng.choice([1, 2, 4, 6])
-        insts = make_batch(ad, ctx, n, B)
+        insts = make_batch(ad, ctx, n, B, var)
         try:
             td0, ep = run_batch(ctx, ad, env, insts)
         except EpisodeFailed:
@@ -89,13 +96,13 @@ def check_feasibility(ctx, ad, episodes_quick: int = 150, episodes_thorough: int
 # C02
 # ------------------------------------------------------------------------------------------------
 def check_termination(ctx, ad, episodes_quick: int = 100, episodes_thorough: int = 1000):
-    env = ad.make_env()
     total = ctx.budget(episodes_quick, episodes_thorough)
     done_eps = 0
     while done_eps < total:
+        env, var = pick_env(ctx, ad)
         n = ctx.rng.choice(ad.sizes(ctx.tier))
         B = ctx.rng.choice([1, 2, 3, 5, 8])
-        insts = make_batch(ad, ctx, n, B)
+        insts = make_batch(ad, ctx, n, B, var)
         pad = ctx.rng.choice(ad.pads)
         try:
             td0, ep = run_batch(ctx, ad, env, insts, extra_pad=pad, nonterm_is_violation=True)
@@ -142,13 +149,13 @@ def check_termination(ctx, ad, episodes_quick: int = 100, episodes_thorough: int
 # C03 (as envcorr.check_reward; an exception raised by the real `_get_reward` is a classified violation)
 # ------------------------------------------------------------------------------------------------
 def check_reward(ctx, ad, episodes_quick: int = 150, episodes_thorough: int = 3000):
-    env = ad.make_env()
     total = ctx.budget(episodes_quick, episodes_thorough)
     done_eps = 0
     while done_eps < total:
+        env, var = pick_env(ctx, ad)
         n = ctx.rng.choice(ad.sizes(ctx.tier))
         B = ctx.rng.choice([1, 2, 4])
-        insts = make_batch(ad, ctx, n, B)
+        insts = make_batch(ad, ctx, n, B, var)
         try:
             td0, ep = run_batch(ctx, ad, env, insts)
         except EpisodeFailed:
@@ -191,12 +198,12 @@ def check_reward(ctx, ad, episodes_quick: int = 150, episodes_thorough: int = 30
 # C04
 # ------------------------------------------------------------------------------------------------
 def check_batch_independence(ctx, ad, groups_quick: int = 30, groups_thorough: int = 300):
-    env = ad.make_env()
     total = ctx.budget(groups_quick, groups_thorough)
     for g in range(total):
+        env, var = pick_env(ctx, ad)
         n = ctx.rng.choice(ad.sizes(ctx.tier))
         B = ctx.rng.choice([2, 3, 5, 8])
-        insts = make_batch(ad, ctx, n, B)
+        insts = make_batch(ad, ctx, n, B, var)
         if ctx.rng.random() < 0.4:
             insts[ctx.rng.randrange(B)] = insts[0]
         pad = ctx.rng.choice(ad.pads)
@@ -273,13 +280,14 @@ def check_completeness(ctx, ad, insts_quick: int = 12, insts_thorough: int = 80,
     """Every Spec-feasible candidate that `ad.c05_ok` calls canonical must be admitted step by step by the
     REAL mask and end in a finished state.  A blocked candidate is classified by `ad.c05_cause`.  Candidates
     are replayed in chunks of equal length (no padding of shorter rows)."""
-    env = ad.make_env()
     total = ctx.budget(insts_quick, insts_thorough)
     nmax = ctx.budget(nmax_quick, nmax_thorough)
     for g in range(total):
         n = ctx.rng.randint(1, nmax) if g >= nmax else nmax - g  # the largest sizes first, then random
         ks = sorted(set(ad.kinds()), key=lambda k: (not k.startswith("boundary"), k))
-        inst = ad.gen_instance(ctx.rng, n, ks[g % len(ks)])  # every kind is used, boundary kinds first
+        env, var = pick_env(ctx, ad)
+        inst = ad.gen_instance(ctx.rng, n, ks[g % len(ks)], **var)  # every kind is used, boundary kinds first
+        decoy = ad.gen_instance(ctx.rng, n, ctx.rng.choice(ad.kinds()), **var)  # unrelated row 0 of every replay batch
         cands = list(ad.enumerate_solutions(inst))
         lines = [ad.line(ad.c05_op, inst, c) for c in cands]
         replies = ask(ctx, lines)
@@ -302,12 +310,14 @@ def check_completeness(ctx, ad, insts_quick: int = 12, insts_thorough: int = 80,
         for L, group in sorted(by_len.items()):
             for k in range(0, len(group), CH):
                 chunk = group[k: k + CH]
-                td = env.reset(ad.to_td([inst] * len(chunk)))
+                # row 0 of every replay batch is an unrelated instance stepped with its first feasible action
+                td = env.reset(ad.to_td([decoy] + [inst] * len(chunk)))
                 alive = [True] * len(chunk)
                 crashed = None
                 for t in range(L):
-                    mask = td["action_mask"]
-                    acts = []
+                    mask = td["action_mask"][1:]
+                    drow = td["action_mask"][0].tolist()
+                    acts = [next((j for j, b in enumerate(drow) if b), 0)]
                     for r, (c, f) in enumerate(chunk):
                         row = mask[r].tolist()
                         a = c[t]
@@ -337,7 +347,7 @@ def check_completeness(ctx, ad, insts_quick: int = 12, insts_thorough: int = 80,
                     ctx.count(f"{ad.name}.chunks-aborted-after-blocked-row")
                     done = [None] * len(chunk)
                 else:
-                    done = td["done"].reshape(len(chunk)).tolist()
+                    done = td["done"].reshape(len(chunk) + 1).tolist()[1:]
                 for r, (c, f) in enumerate(chunk):
                     ctx.case((ad.name, repr(inst), tuple(c)))
                     o = int(f["obj"])
@@ -379,13 +389,13 @@ def real_checker(env, td, sol):
 
 
 def check_checker(ctx, ad, episodes_quick: int = 24, episodes_thorough: int = 300):
-    env = ad.make_env()
     total = ctx.budget(episodes_quick, episodes_thorough)
     done_eps = 0
     while done_eps < total:
+        env, var = pick_env(ctx, ad)
         n = ctx.rng.choice(ad.sizes(ctx.tier))
         B = ctx.rng.choice([1, 2, 4])
-        insts = make_batch(ad, ctx, n, B)
+        insts = make_batch(ad, ctx, n, B, var)
         try:
             td0, ep = run_batch(ctx, ad, env, insts, extra_pad=ctx.rng.choice(ad.pads))
         except EpisodeFailed:
@@ -405,10 +415,12 @@ def check_checker(ctx, ad, episodes_quick: int = 24, episodes_thorough: int = 30
                 cases.append((inst2, lab, sol))
         lines = [ad.check_line(i, lab, s) for (i, lab, s) in cases]
         replies = ask(ctx, lines)
+        solo_verdicts = []
         for (inst, lab, sol), rep in zip(cases, replies):
             f = parse_fields(rep)
             td1 = env.reset(ad.to_td([inst]))
             acc, exc = real_checker(env, td1, sol)
+            solo_verdicts.append(acc)
             ctx.case((ad.name, repr(inst), lab, tuple(sol)), nontrivial=True)
             ctx.count(f"{ad.name}.{lab}.{'feasible' if f.get('feas') == '1' else 'infeasible'}.{'accepted' if acc else 'rejected'}")
             if exc not in (None, "AssertionError"):
@@ -435,6 +447,39 @@ def check_checker(ctx, ad, episodes_quick: int = 24, episodes_thorough: int = 30
                 viol(ctx, f"{ad.name}:checker-accepts-infeasible" + (":" + cause if cause else ""),
                               "the real checker accepts a solution that is infeasible by the Lean Spec",
                               {"inst": inst, "label": lab, "actions": sol, "cause": cause})
-            ctx.sample({"env": ad.name, "label": lab, "inst": inst, "actions": sol,
+            ctx.sample({"env": ad.name, "label": lab, "inst": inst, "actions": list(sol),
                         "real_checker_accepts": acc, "spec_feasible": f.get("feas")}, cap=4)
+        # `get_reward` calls the checker on whole batches: a batch must be accepted iff every one of its rows is
+        # accepted on its own (a batch-global shortcut inside the checker breaks this)
+        by_len: Dict[int, List[int]] = {}
+        for k, (inst, lab, sol) in enumerate(cases):
+            by_len.setdefault(len(sol), []).append(k)
+        for L, idx in by_len.items():
+            if len(idx) < 2 or L == 0:
+                continue
+            for _ in range(2):
+                grp = ctx.rng.sample(idx, min(len(idx), ctx.rng.choice([2, 3, 4])))
+                rej = [k for k in grp if not solo_verdicts[k]]
+                if len(rej) > 1:  # at most one rejected row: the informative compositions
+                    grp = [k for k in grp if solo_verdicts[k]] + rej[:1]
+                    if len(grp) < 2:
+                        continue
+                ctx.rng.shuffle(grp)
+                tdb = env.reset(ad.to_td([cases[k][0] for k in grp]))
+                try:
+                    env.check_solution_validity(tdb, torch.tensor([list(cases[k][2]) for k in grp], dtype=torch.long))
+                    accb = True
+                except Exception:
+                    accb = False
+                expect = all(solo_verdicts[k] for k in grp)
+                ctx.case((ad.name, "batched-checker", tuple(repr(cases[k][0]) for k in grp),
+                          tuple(tuple(cases[k][2]) for k in grp)))
+                ctx.count(f"{ad.name}.checker-batch.{'all-accepted' if expect else 'one-rejected'}")
+                if accb != expect:
+                    rows = [(cases[k][0], cases[k][1], list(cases[k][2]), solo_verdicts[k]) for k in grp]
+                    cause = ad.batch_checker_cause(ctx, rows, accb)
+                    viol(ctx, f"{ad.name}:checker-batch-differs-from-rows" + (":" + cause if cause else ""),
+                         "the checker's verdict on a batch is not the conjunction of its verdicts on the rows",
+                         {"rows": [{"inst": i, "label": lab, "actions": a, "solo_accepts": v} for (i, lab, a, v) in rows],
+                          "batch_accepts": accb, "cause": cause})
         done_eps += B
